@@ -38,7 +38,8 @@
    Corollaries: if no position of a play consistent with the strategy is in
    that class ([no_stale_on_plays]), or if no state of the region is in it
    for any persistence index ([no_stale_states]), the implementation WINS
-   the game from every state of the region (comp_wins ... win_rabin).  The
+   the game from every state of the region ([impl_wins_from]: impl_strategy,
+   named, is a valid strategy and every play consistent with it is won).  The
    second condition holds in particular when every winning state lies in
    y_{k,i} of its level for every i ([implementation_wins_if_traps_cover]) -
    and ALWAYS when there is exactly one persistence predicate
@@ -515,12 +516,25 @@ Definition no_stale_on_plays (s : st) : Prop :=
 Definition no_stale_states : Prop :=
   forall x yb h, x < nx -> yb < ny -> win (sv c x yb) = true -> ~ stale x yb h zk yki.
 
+(* The theorems below NAME the implementation: [impl_strategy] is a valid
+   strategy of the mode and every play from s consistent with IT is won.  The
+   forms that only say that SOME strategy wins (comp_wins; they would also
+   follow from the exactness of the region, C04) are the [_exists]
+   corollaries. *)
+Definition impl_wins_from (s : st) : Prop :=
+  cvalid ny moore impl_strategy /\
+  forall p, inrange nx ny p -> p 0 = s -> cconsistent impl_strategy p ->
+            win_rabin c E S holds goals plus_one p.
+
+Lemma impl_wins_from_exists s :
+  impl_wins_from s -> comp_wins nx ny moore (win_rabin c E S holds goals plus_one) s.
+Proof. intros Hw. exists impl_strategy. exact Hw. Qed.
+
 Theorem implementation_wins_unless_stale s :
   fst s < nx -> snd s < ny -> win (stv s) = true ->
-  no_stale_on_plays s ->
-  comp_wins nx ny moore (win_rabin c E S holds goals plus_one) s.
+  no_stale_on_plays s -> impl_wins_from s.
 Proof.
-  intros H1 H2 Hz Hns. exists impl_strategy. split; [apply impl_strategy_valid; lia|].
+  intros H1 H2 Hz Hns. split; [apply impl_strategy_valid; lia|].
   intros p Hr Hp0 Hcons. apply (impl_play_won_unless_stale p Hr Hcons).
   - rewrite Hp0. exact Hz.
   - apply (Hns p Hr Hp0 Hcons).
@@ -538,8 +552,7 @@ Qed.
 
 Theorem implementation_wins_if_no_stale_states s :
   fst s < nx -> snd s < ny -> win (stv s) = true ->
-  no_stale_states ->
-  comp_wins nx ny moore (win_rabin c E S holds goals plus_one) s.
+  no_stale_states -> impl_wins_from s.
 Proof.
   intros H1 H2 Hz Hns.
   apply (implementation_wins_unless_stale s H1 H2 Hz).
@@ -552,7 +565,7 @@ Theorem implementation_wins_if_traps_cover s :
   fst s < nx -> snd s < ny -> win (stv s) = true ->
   (forall x yb h, x < nx -> yb < ny -> h < none -> win (sv c x yb) = true ->
      nth h (nth (fidx zk (sv c x yb)) yki []) bfalse (sv c x yb) = true) ->
-  comp_wins nx ny moore (win_rabin c E S holds goals plus_one) s.
+  impl_wins_from s.
 Proof.
   intros H1 H2 Hz Hcov. apply (implementation_wins_if_no_stale_states s H1 H2 Hz).
   intros x yb h Hx Hyb Hw [Hlt Hf]. rewrite (Hcov x yb h Hx Hyb Hlt Hw) in Hf. discriminate.
@@ -562,7 +575,7 @@ Qed.
 Theorem implementation_wins_one_persistence s :
   none = 1 ->
   fst s < nx -> snd s < ny -> win (stv s) = true ->
-  comp_wins nx ny moore (win_rabin c E S holds goals plus_one) s.
+  impl_wins_from s.
 Proof.
   intros H1p H1 H2 Hz. apply (implementation_wins_if_traps_cover s H1 H2 Hz).
   intros x yb h Hx Hyb Hlt Hw.
